@@ -127,7 +127,27 @@ func nested(n int, open, close, leaf string) string {
 	return strings.Repeat(open, n) + leaf + strings.Repeat(close, n)
 }
 
+// wideFrame: a function with 3*size locals that recurses three levels deep (frames much wider than the usual
+// handful of variables; the variable memory is claimed per frame).
+func wideFrame(size int) string {
+	var b strings.Builder
+	n := 3 * size
+	b.WriteString("fn w(n: int) -> int {\n    let a0 = n;\n")
+	for i := 1; i < n; i++ {
+		fmt.Fprintf(&b, "    let a%d = a%d + 1;\n", i, i-1)
+	}
+	fmt.Fprintf(&b, "    if n == 0 { a%d } else { w(n - 1) + a0 }\n}\nfn main() { println(w(3)); }\n", n-1)
+	return b.String()
+}
+
 var families = []family{
+	{name: "wide-frame", dims: []string{"mem", "call", "stack"}, gen: wideFrame,
+		demand: func(d int, dim string) int {
+			if dim == "mem" {
+				return 3 * d * 4 // 3*size variables in each of four live frames
+			}
+			return 0
+		}},
 	{name: "recursion", dims: []string{"call", "stack", "mem", "treecall"},
 		gen: func(d int) string {
 			return fmt.Sprintf("fn r(n: int) -> int { let a = n; if n == 0 { 0 } else { 1 + r(n - 1) } }\nfn main() { println(r(%d)); }\n", d)
